@@ -277,6 +277,8 @@ pub struct PanicRecord {
     pub thread: String,
     pub message: String,
     pub location: String,
+    /// in-repo frames of the panicking thread, innermost first
+    pub frames: Vec<String>,
 }
 
 static PANICS: Mutex<Vec<PanicRecord>> = Mutex::new(Vec::new());
@@ -302,10 +304,26 @@ pub fn install_panic_monitor() {
                 .map(|l| format!("{}:{}", l.file(), l.line()))
                 .unwrap_or_default();
             if let Ok(mut g) = PANICS.lock() {
+                // in-repo frames of the panicking thread (for witnesses of panics that do not
+                // reproduce on demand)
+                let bt = std::backtrace::Backtrace::force_capture().to_string();
+                let mut frames: Vec<String> = vec![];
+                let mut last_fn = String::new();
+                for line in bt.lines() {
+                    let t = line.trim();
+                    if let Some(rest) = t.strip_prefix("at ") {
+                        if rest.starts_with("/repo/") && frames.len() < 24 {
+                            frames.push(format!("{} ({})", last_fn, rest.trim_start_matches("/repo/")));
+                        }
+                    } else if let Some((_, f)) = t.split_once(": ") {
+                        last_fn = f.to_string();
+                    }
+                }
                 g.push(PanicRecord {
                     thread,
                     message,
                     location,
+                    frames,
                 });
             }
             default(info);
